@@ -16,18 +16,18 @@ def brP : Option (Int × Int) → List Piece
 theorem chars_brP (r : Option (Int × Int)) : pchars (brP r) = (brText r).toList := by
   cases r with
   | none => rfl
-  | some p => obtain ⟨a, b⟩ := p; simp [brP, brText, pchars_append, chars_T, String.toList_append]
+  | some p => obtain ⟨a, b⟩ := p; simp [brP, brText, pchars_append, chars_T, chars_N, String.toList_append]
 
 theorem toks_brP (r : Option (Int × Int)) : ptoks (brP r) = rangeToks r := by
   cases r with
   | none => rfl
-  | some p => obtain ⟨a, b⟩ := p; simp [brP, rangeToks, ptoks_append, toks_T]
+  | some p => obtain ⟨a, b⟩ := p; simp [brP, rangeToks, ptoks_append, toks_T, toks_N]
 
 def portP (p : PDecl) : List Piece :=
-  starP p.attrs ++ W4 ++ T (dirStr p.dir) ++ W1 ++ brP p.rng ++ T (fixName p.name) ++ T ";" ++ NL
+  starP p.attrs ++ W4 ++ T (dirStr p.dir) ++ W1 ++ brP p.rng ++ N (fixName p.name) ++ T ";" ++ NL
 
 theorem chars_portP (p : PDecl) : pchars (portP p) = (portLine p).toList := by
-  simp only [portP, portLine, pchars_append, chars_starP, chars_W4, chars_W1, chars_T, chars_brP, chars_NL,
+  simp only [portP, portLine, pchars_append, chars_starP, chars_W4, chars_W1, chars_T, chars_N, chars_brP, chars_NL,
     String.toList_append]
   have : ";\n".toList = ";".toList ++ "\n".toList := by decide
   rw [this]; simp [List.append_assoc]
@@ -36,35 +36,35 @@ theorem dirStr_tok (d : Dir) (h : d ≠ .undef) : dirStr d = dirTok d := by
   cases d <;> first | rfl | exact absurd rfl h
 
 theorem toks_portP (p : PDecl) (h : p.dir ≠ .undef) : ptoks (portP p) = (SItem.port p).toks := by
-  simp only [portP, SItem.toks, SItem.attrs, SItem.core, portCore, ptoks_append, toks_starP, toks_W4, toks_W1, toks_T,
+  simp only [portP, SItem.toks, SItem.attrs, SItem.core, portCore, ptoks_append, toks_starP, toks_W4, toks_W1, toks_T, toks_N,
     toks_brP, toks_NL, dirStr_tok p.dir h, nameT]
   simp
 
 def wireP (w : FWire) : List Piece :=
-  starP w.attrs ++ W4 ++ T w.ty ++ W1 ++ brP w.rng ++ T (fixName w.name) ++ T ";" ++ NL
+  starP w.attrs ++ W4 ++ T w.ty ++ W1 ++ brP w.rng ++ N (fixName w.name) ++ T ";" ++ NL
 
 theorem chars_wireP (w : FWire) : pchars (wireP w) = (wireLine w).toList := by
-  simp only [wireP, wireLine, pchars_append, chars_starP, chars_W4, chars_W1, chars_T, chars_brP, chars_NL,
+  simp only [wireP, wireLine, pchars_append, chars_starP, chars_W4, chars_W1, chars_T, chars_N, chars_brP, chars_NL,
     String.toList_append]
   have : ";\n".toList = ";".toList ++ "\n".toList := by decide
   rw [this]; simp [List.append_assoc]
 
 theorem toks_wireP (w : FWire) : ptoks (wireP w) = (SItem.wire w).toks := by
-  simp only [wireP, SItem.toks, SItem.attrs, SItem.core, ptoks_append, toks_starP, toks_W4, toks_W1, toks_T,
+  simp only [wireP, SItem.toks, SItem.attrs, SItem.core, ptoks_append, toks_starP, toks_W4, toks_W1, toks_T, toks_N,
     toks_brP, toks_NL, nameT]
   simp
 
 /-! instances -/
 
-def connP (c : String × PExpr) : List Piece := W8 ++ T "." ++ T (fixName c.1) ++ T "(" ++ exprP c.2 ++ T ")"
+def connP (c : String × PExpr) : List Piece := W8 ++ T "." ++ N (fixName c.1) ++ T "(" ++ exprP c.2 ++ T ")"
 
 theorem chars_connP (c : String × PExpr) : pchars (connP c) = (connLine c).toList := by
-  simp only [connP, connLine, pchars_append, chars_W8, chars_T, chars_exprP, String.toList_append]
+  simp only [connP, connLine, pchars_append, chars_W8, chars_T, chars_N, chars_exprP, String.toList_append]
   have : "        .".toList = "        ".toList ++ ".".toList := by decide
   rw [this]
 
 theorem toks_connP (c : String × PExpr) : ptoks (connP c) = connToks (c.1, toXE c.2) := by
-  simp only [connP, connToks, ptoks_append, toks_W8, toks_T, toks_exprP, nameT]
+  simp only [connP, connToks, ptoks_append, toks_W8, toks_T, toks_N, toks_exprP, nameT]
   simp
 
 def paramP1 (kv : String × String) : List Piece := W8 ++ T "." ++ T kv.1 ++ T "(" ++ valP kv.2 ++ T ")"
@@ -78,7 +78,7 @@ theorem chars_paramP (ps : Params) : pchars (paramP ps) = (paramText ps).toList 
   cases ps with
   | nil => rfl
   | cons kv rest =>
-    simp only [List.isEmpty_cons, Bool.false_eq_true, if_false, pchars_append, chars_T, chars_NL, chars_W4,
+    simp only [List.isEmpty_cons, Bool.false_eq_true, if_false, pchars_append, chars_T, chars_N, chars_NL, chars_W4,
       pchars_intercalate, String.toList_append, String.toList_intercalate, List.map_map]
     have h1 : "#(\n".toList = "#".toList ++ "(".toList ++ "\n".toList := by decide
     have h2 : "\n    )\n".toList = "\n".toList ++ "    ".toList ++ ")".toList ++ "\n".toList := by decide
@@ -88,7 +88,7 @@ theorem chars_paramP (ps : Params) : pchars (paramP ps) = (paramText ps).toList 
         "        ." ++ kv.1 ++ "(" ++ kv.2 ++ ")") := by
       apply List.map_congr_left
       intro x _
-      simp only [Function.comp, paramP1, pchars_append, chars_W8, chars_T, chars_valP, String.toList_append]
+      simp only [Function.comp, paramP1, pchars_append, chars_W8, chars_T, chars_N, chars_valP, String.toList_append]
       have : "        .".toList = "        ".toList ++ ".".toList := by decide
       rw [this]
     rw [hm]
@@ -107,12 +107,12 @@ theorem toks_paramP (ps : Params) : ptoks (paramP ps) = paramToks ps := by
   cases ps with
   | nil => rfl
   | cons kv rest =>
-    simp only [List.isEmpty_cons, Bool.false_eq_true, if_false, ptoks_append, toks_T, toks_NL, toks_W4, ptoks_intercalate,
+    simp only [List.isEmpty_cons, Bool.false_eq_true, if_false, ptoks_append, toks_T, toks_N, toks_NL, toks_W4, ptoks_intercalate,
       List.append_nil, List.map_map, sepParams_eq]
     have hm : (kv :: rest).map (ptoks ∘ paramP1) = (kv :: rest).map paramToks1 := by
       apply List.map_congr_left
       intro x _
-      simp [paramP1, paramToks1, ptoks_append, toks_W8, toks_T, toks_valP]
+      simp [paramP1, paramToks1, ptoks_append, toks_W8, toks_T, toks_N, toks_valP]
     rw [hm]
     simp
 end Spydr.Verilog.Elab
